@@ -246,11 +246,18 @@ func (o *structFieldsJSON) Get(key string) (json.RawMessage, bool) {
 func (o *structFieldsJSON) Delete(key string) {
 	delete(o.Fields, key)
 
-	for i, existing := range o.Keys {
-		if existing == key {
-			o.Keys = append(o.Keys[:i], o.Keys[i+1:]...)
+	// a JSON object with a repeated member name yields repeated keys;
+	// remove all of them (shrinking the slice while ranging over it would
+	// run past its end)
+	keys := make([]string, 0, len(o.Keys))
+
+	for _, existing := range o.Keys {
+		if existing != key {
+			keys = append(keys, existing)
 		}
 	}
+
+	o.Keys = keys
 }
 
 func (o *structFieldsJSON) ToJSON() ([]byte, error) {
